@@ -533,10 +533,13 @@ fn parse_marker_op<T: Pep508Url, R: Reporter>(
         // wsp*
         cursor.eat_whitespace();
         // ('or' marker_and) or ('and' marker_or)
-        let (start, len) = cursor.peek_while(|c| !c.is_whitespace());
+        // The keyword ends at whitespace, or directly at a parenthesis or quote
+        // (`a and(b)`, `a and'x' == os_name`).
+        let is_keyword_char = |c: char| !c.is_whitespace() && !matches!(c, '(' | '\'' | '"');
+        let (start, len) = cursor.peek_while(is_keyword_char);
         match cursor.slice(start, len) {
             value if value == op => {
-                cursor.take_while(|c| !c.is_whitespace());
+                cursor.take_while(is_keyword_char);
 
                 if let Some(expression) = parse_inner(cursor, reporter)? {
                     match tree {
